@@ -81,6 +81,9 @@ func genC17Collect(g *Gen) *Scn {
 	if sc.Sub != "Collect" && g.Bool(0.5) {
 		sc.SetInt("resub", 1)
 	}
+	if sc.Sub == "Collect" {
+		sc.SetInt("withctx", g.Intn(2))
+	}
 	return sc
 }
 
@@ -393,8 +396,16 @@ func runC17Collect(e *Env) {
 		var gotErr error
 		returned := false
 		retStep := 0
+		ctxLost := false
 		e.Go("collect", func() {
-			got, gotErr = ro.Collect(tapped)
+			if sc.Int("withctx", 0) == 1 {
+				// the context-aware flavour: same values and error, plus the context of the last notification
+				var c context.Context
+				got, c, gotErr = ro.CollectWithContext(context.WithValue(context.Background(), ctxKey("c17"), "sub"), tapped)
+				ctxLost = c == nil || c.Value(ctxKey("c17")) != "sub"
+			} else {
+				got, gotErr = ro.Collect(tapped)
+			}
 			returned = true
 			retStep = e.Step()
 		})
@@ -422,6 +433,9 @@ func runC17Collect(e *Env) {
 		}
 		if gotErr != seen.Err {
 			e.Violate("C17", "collect-wrong-error", "Collect's error is not the stream's error: "+describe)
+		}
+		if ctxLost {
+			e.Violate("C17", "collect-context-lost", "CollectWithContext returned a context that is nil or does not descend from the one it was given: "+describe)
 		}
 		return
 	}
